@@ -1,4 +1,5 @@
 """C05 - every aligned read is accounted for; region splitting loses or duplicates none."""
+import copy
 from collections import Counter, defaultdict
 
 from hypothesis import strategies as st
@@ -19,7 +20,9 @@ RULE = ("Hypothesis-generated deep loci (pile-ups joined by bridge reads, valley
         "classify) and a read lies within 256 bp of a region edge, or a one-bin pile-up of >= 1024 reads, or the flag stage contains secondary + "
         "supplementary + unmapped + low-MAPQ records; distinct by scenario hash. Templates added later: front_cluster "
         "(a small cluster ending in the bin in which the split cluster begins with short reads), placed unmapped "
-        "records, multi-mapped reads outside genes, one-base alignments.")
+        "records, multi-mapped reads outside genes, one-base alignments. Relation of the flag stage (annotated runs): "
+        "the records are run again with every MAPQ < 5 raised to 60; a singly-aligned primary read that the second "
+        "run calls unique / unique_minor_difference / ambiguous must be reported by the first run with the same lines.")
 ASSUMPTIONS = ["documented filters: unmapped, supplementary, --min_mapq, --no_secondary, inconsistent MAPQ < 5 "
                "(annotated), <=2-exon alignments with MAPQ < 1 or secondary in gene-free regions",
                "reads with another alignment may be suppressed by multi-mapper resolution (MAY, not MUST)"]
@@ -290,6 +293,54 @@ def flag_scenarios(draw):
     return sc
 
 
+CONSISTENT_TYPES = ("unique", "unique_minor_difference", "ambiguous")
+
+
+def _low_mapq_relation(sc, res, ctx, case):
+    """The documented low-MAPQ filter of annotated runs concerns alignments that are inconsistent with the annotation.
+    The kind of an alignment does not depend on its MAPQ, so it is taken from a second run of the same records with
+    the low MAPQ values raised to 60: a read that is the only record of its name, primary, with --min_mapq <= MAPQ < 5,
+    and that the second run reports as unique / unique_minor_difference / ambiguous has to be reported by the first
+    run as well (and with the same lines)."""
+    if not sc["annotated"]:
+        return
+    n_rec = Counter(r["n"] for r in sc["reads"])
+    low = [r for r in sc["reads"] if r.get("c") is not None and not r["f"] & (4 | 256 | 2048) and n_rec[r["n"]] == 1
+           and r.get("q", 60) < 5 and r.get("q", 60) >= (sc["min_mapq"] or 0)]
+    if not low:
+        return
+    sc2 = copy.deepcopy(sc)
+    names = set(r["n"] for r in low)
+    for r in sc2["reads"]:
+        if r["n"] in names:
+            r["q"] = 60
+    res2 = pipeline.run_case(sc2, ctx)
+    try:
+        if res2.code != 0 or not res2.path("read_assignments.tsv"):
+            ctx.note("raised_mapq_run_failed")
+            return
+        lines1, lines2 = defaultdict(list), defaultdict(list)
+        for dst, rr in ((lines1, res), (lines2, res2)):
+            for l in parse.data_lines(rr.path("read_assignments.tsv")):
+                dst[l.split("\t")[0]].append(l)
+        n_consistent = 0
+        for n in sorted(names):
+            types = set(l.split("\t")[5] for l in lines2.get(n, []))
+            if not types or not types <= set(CONSISTENT_TYPES):
+                continue
+            n_consistent += 1
+            if n not in lines1:
+                ctx.violation("C05:consistent-read-with-low-mapq-is-not-reported:" + sorted(types)[0],
+                              {"read": n, "mapq": [r.get("q") for r in low if r["n"] == n],
+                               "with_mapq_60": lines2[n][:3]}, case)
+            elif sorted(lines1[n]) != sorted(lines2[n]):
+                ctx.violation("C05:assignment-of-a-consistent-read-depends-on-its-mapq",
+                              {"read": n, "low": lines1[n][:3], "with_mapq_60": lines2[n][:3]}, case)
+        ctx.cls("low-mapq consistent reads: %s" % ("0" if not n_consistent else "1+"))
+    finally:
+        res2.cleanup()
+
+
 def evaluate_flags(case, ctx):
     sc = case
     res = pipeline.run_case(sc, ctx)
@@ -308,6 +359,7 @@ def evaluate_flags(case, ctx):
             elif r.get("q", 60) < 5:
                 kinds.add("lowmapq")
         ctx.cls("annotated" if sc["annotated"] else "annotation-free", "min_mapq=%s" % sc["min_mapq"])
+        _low_mapq_relation(sc, res, ctx, case)
         if len(kinds) == 4:
             ctx.mark_nontrivial(case_hash(case))
             ctx.sample(pipeline.summarize(sc, {"verdicts": dict(Counter(v.values()))}), limit=2)
